@@ -115,6 +115,16 @@ def run(chk, ctx) -> None:
     want = T.spec('runout_count is not None and runout_count < 1', boolean=True)
     chk.ob('C14.count_checked', f'State.{name}', want in guards, ctx.sfi(name).loc,
            'a run-out count below one is refused', got=[T.show(g) for g in guards], want=T.show(want))
+    # who may choose: the named player, if his flag is still set; only an absent index (is None) means "the next one"
+    vf = ctx.sfi(name)
+    dflt = [nd for nd in walk_no_nested(vf.node) if isinstance(nd, ast.If) and T.cond(nd.test) == T.spec('player_index is None', boolean=True)]
+    ok_d = len(dflt) == 1 and any(isinstance(s2, ast.Assign) and T.norm(s2.value) == T.spec('next(self.runout_count_selector_indices)') for s2 in dflt[0].body)
+    refused = T.spec('not self.runout_count_selector_statuses[player_index]', boolean=True)
+    ok_r = any(g in (refused, T.subst(refused, {('name', 'player_index'): T.spec('next(self.runout_count_selector_indices)')})) for g in guards)
+    truthy = [nd for nd in ast.walk(vf.node) if isinstance(nd, ast.UnaryOp) and isinstance(nd.op, ast.Not) and isinstance(nd.operand, ast.Name) and nd.operand.id == 'player_index']
+    chk.ob('C14.selector', f'State.{name}', ok_d and ok_r and not truthy, vf.loc,
+           'each remaining player chooses once: an explicit player is refused when he has already chosen (player 0 included); only an absent index means the next pending player',
+           got=f'default under `is None`: {ok_d}; already-chosen refused: {ok_r}; truthiness tests of the index: {len(truthy)}')
     for caller in ('can_select_runout_count', 'select_runout_count'):
         cf = ctx.sfi(caller)
         calls = [nd for nd in walk_no_nested(cf.node) if isinstance(nd, ast.Call) and self_attr(nd.func) == name]
